@@ -20,12 +20,12 @@ pub(crate) fn apply_nests_to_mappings<A, B>(mappings: Mappings<2, (A, B)>, nests
 						names: {
 							let src = class_key;
 							let [_, dst] = class.info.names.into();
-							let dst = dst.unwrap(); // TODO: unwrap
 
 							let src = translator.map_class(&src)?;
-							let dst = mapped_translator.map_class(&dst)?;
+							// A class doesn't need to have a name in the second namespace.
+							let dst = dst.map(|dst| mapped_translator.map_class(&dst)).transpose()?;
 
-							[src, dst].into()
+							[Some(src), dst].try_into()?
 						},
 					},
 					fields: map_with_key_from_result_iter(class.fields.into_values()
@@ -69,19 +69,19 @@ pub(crate) fn undo_nests_to_mappings<A, B>(mappings: Mappings<2, (A, B)>, nests:
 						names: {
 							let src = class_key;
 							let [_, dst] = class.info.names.into();
-							let dst = dst.unwrap(); // TODO: unwrap
 
 							let src = translator.map_class(&src)?;
-							let dst = mapped_translator.map_class(&dst)?;
+							// A class doesn't need to have a name in the second namespace.
+							let dst = dst.map(|dst| mapped_translator.map_class(&dst)).transpose()?;
 
 							// we get the nests by a class un-nested names
-							let dst = if nests.all.contains_key(&dst) {
+							let dst = dst.map(|dst| if nests.all.contains_key(&dst) {
 								replace_double_underscore_with_dollar(&dst)
 							} else {
 								dst
-							};
+							});
 
-							[src, dst].into()
+							[Some(src), dst].try_into()?
 						},
 					},
 					fields: map_with_key_from_result_iter(class.fields.into_values()
